@@ -276,7 +276,7 @@ func literalOf(v JVal) string {
 const coerceSDL = `
 enum E { RED GREEN }
 scalar Any
-input In { a: Int! b: [In] c: E = RED d: String! = "dflt" }
+input In { a: Int! b: [In] c: E = RED d: String! = "dflt" e: [[Int]] }
 `
 
 var (
@@ -331,7 +331,7 @@ func coerceSchemaVariant(t string, narrow bool) (*ast.Schema, error) {
 	if renamedPhase {
 		// the model's enum E stands for the BUILT-IN enum __TypeKind (RED = OBJECT, GREEN = SCALAR)
 		key = "renamed:" + t
-		sdl = "scalar Any\ninput In { a: Int! b: [In] c: __TypeKind = OBJECT d: String! = \"dflt\" }\n"
+		sdl = "scalar Any\ninput In { a: Int! b: [In] c: __TypeKind = OBJECT d: String! = \"dflt\" e: [[Int]] }\n"
 	}
 	if s, ok := coerceSchemas.Load(key); ok {
 		return s.(*ast.Schema), nil
